@@ -25,8 +25,11 @@ ModelParams == {"P_models", "B_models", "L_models"}
 Params == {"P_bfield", "P_edist", "P_comp", "P_adata", "P_geom", "P_geomT", "P_integ", "P_models", "P_xf", "P_parent", "N_xf",
            "B_energy", "B_power", "B_temp", "B_element", "B_divx", "B_divy", "B_length", "B_sigma", "B_adata", "B_att", "A_step",
            "A_clampZero", "A_clampSigma", "B_models", "B_integ", "B_xf", "B_parent", "M_cxline",
-           "L_profile", "LP_energy", "LP_length", "LP_radius", "L_spectrum", "L_models", "L_integ", "L_importance", "L_xf"}
-Values(p) == IF p \in ModelParams THEN 1..3 ELSE 1..2      \* model lists: two different lists and the empty list (3)
+           "L_profile", "LP_energy", "LP_length", "LP_radius", "L_spectrum", "L_models", "L_integ", "L_importance", "L_xf",
+           "B_plasma", "L_plasma"}
+\* re-pointing beam / laser at the plasma they already reference: a public assignment that re-subscribes and reconfigures
+Repoint == {"B_plasma", "L_plasma"}
+Values(p) == IF p \in ModelParams THEN 1..3 ELSE IF p \in Repoint THEN {1} ELSE 1..2      \* model lists: two different lists and the empty list (3)
 
 \* placement of plasma / beam relative to the world (ancestor transform matters only under the node)
 PlasmaPlace(c) == <<c["P_xf"], c["P_parent"], IF c["P_parent"] = 2 THEN c["N_xf"] ELSE 0>>
@@ -66,10 +69,11 @@ Direct(p) ==
     [] p \in {"B_length", "B_sigma", "B_divx", "B_divy", "A_clampSigma", "B_integ"} -> {"bconf"}
     [] p = "B_adata"  -> {"bconf", "aconf"}
     [] p = "B_att"    -> {"aconf"}
+    [] p = "B_plasma" -> {"bconf", "aconf"}
     [] p = "A_step"   -> {"achange"}
     [] p = "M_cxline" -> {"bmchange"}
     [] p = "L_profile" -> {"lconfgeo"}
-    [] p \in {"L_spectrum", "L_importance", "L_models", "L_integ", "L_xf"} -> {"lconfmat"}
+    [] p \in {"L_spectrum", "L_importance", "L_models", "L_integ", "L_xf", "L_plasma"} -> {"lconfmat"}
     [] OTHER -> {}
 
 \* callbacks registered on each notifier, as [cascade: notifiers fired, ops: reconfiguration run, clear: caches cleared]
